@@ -687,6 +687,7 @@ func (c *Ctx) typeTables() {
 		}
 		return out
 	}
+	var newTable map[int64]*ssa.Function
 	for _, x := range []struct {
 		name     string
 		from, to int64
@@ -740,6 +741,15 @@ func (c *Ctx) typeTables() {
 				}
 			}
 		}
+		// New written as a table of constructors indexed by the type: the entries the package initialiser stores
+		if len(cs) == 0 && x.name == "New" {
+			if tab := constructorTable(fn); tab != nil {
+				newTable = tab
+				for k := range tab {
+					cs[k] = true
+				}
+			}
+		}
 		var missing []string
 		for k := x.from; k <= x.to; k++ {
 			if !cs[k] {
@@ -777,6 +787,24 @@ func (c *Ctx) typeTables() {
 			for _, in := range b.Succs[0].Instrs {
 				if call, ok := in.(*ssa.Call); ok && call.Common().StaticCallee() != nil {
 					got = call.Common().StaticCallee().Name()
+				}
+			}
+			if got != want {
+				bad += fmt.Sprintf("%s -> %s; ", typeNames[v], got)
+			}
+		}
+		// table form: the function stored for type v calls the constructor of that type
+		for v, f := range newTable {
+			if v < 1 || v > 14 {
+				continue
+			}
+			want := "New" + strings.Title(strings.ToLower(typeNames[v])) + "Message"
+			got := f.Name()
+			if f.Blocks != nil && got != want {
+				for _, call := range ir.Calls(f) {
+					if h := call.Common().StaticCallee(); h != nil && strings.HasPrefix(h.Name(), "New") {
+						got = h.Name()
+					}
 				}
 			}
 			if got != want {
@@ -852,6 +880,26 @@ func (c *Ctx) typeTables() {
 	}
 	// thresholds of header.msglen
 	if fn := c.P.Func("message", "header", "msglen"); fn != nil {
+		// the fixed-header length is a function of the remaining length alone: folded for the eight boundary values
+		// (however it is written: if-chain, table of limits and a loop, shifts)
+		want := [][2]int64{{0, 2}, {127, 2}, {128, 3}, {16383, 3}, {16384, 4}, {2097151, 4}, {2097152, 5}, {268435455, 5}}
+		folded := true
+		var wrong []string
+		for _, w := range want {
+			got, ok := evalFieldFunc(fn, "remlen", w[0])
+			if !ok {
+				folded = false
+				break
+			}
+			if got != w[1] {
+				wrong = append(wrong, fmt.Sprintf("remaining length %d -> %d bytes of fixed header (MQTT: %d)", w[0], got, w[1]))
+			}
+		}
+		if folded {
+			c.R.Check(len(wrong) == 0, ruleT1, "header.msglen:varint-thresholds", c.P.Pos(fn.Pos()), "1/2/3/4 length bytes up to 127 / 16383 / 2097151 (folded for the eight boundary values)", "the fixed-header length is wrong at a boundary of the remaining-length encoding ("+strings.Join(wrong, "; ")+"): Len() disagrees with the varint actually written")
+		}
+	}
+	if fn := c.P.Func("message", "header", "msglen"); fn != nil && !msglenFolds(fn) {
 		th := map[int64]bool{}
 		for _, k := range constsOf(fn, token.LEQ) {
 			th[k] = true
@@ -1431,6 +1479,23 @@ func evalSmallIntFunc(fn *ssa.Function, k int64) (int64, bool) {
 	return n, exact
 }
 
+// evalBindField, when set, makes evalConstFunc take loads of that field of the receiver as the argument (a method
+// that is a function of one field of its receiver: header.msglen of remlen).
+var evalBindField string
+
+// evalFieldFunc folds a method that depends on one integer field of its receiver for the value k of that field.
+func evalFieldFunc(fn *ssa.Function, field string, k int64) (int64, bool) {
+	old := evalBindField
+	evalBindField = field
+	defer func() { evalBindField = old }()
+	v, _, ok := evalConstFunc(fn, constant.MakeInt64(k), 0)
+	if !ok || v == nil || v.Kind() != constant.Int {
+		return 0, false
+	}
+	n, exact := constant.Int64Val(v)
+	return n, exact
+}
+
 // tableCell: an address into a package-level variable: element idx of an array (idx < 0: the variable itself), field
 // `field` of it (field < 0: the whole element).
 type tableCell struct {
@@ -1450,6 +1515,7 @@ func evalConstFunc(fn *ssa.Function, arg constant.Value, depth int) (constant.Va
 	// addresses into a package-level table indexed by a known value: (table, index, field or -1)
 	type cell = tableCell
 	addr := map[ssa.Value]cell{}
+	arrVal := map[ssa.Value]*ssa.Global{}
 	val := func(v ssa.Value) (constant.Value, bool) {
 		if c, ok := v.(*ssa.Const); ok {
 			if c.Value == nil {
@@ -1488,9 +1554,19 @@ func evalConstFunc(fn *ssa.Function, arg constant.Value, depth int) (constant.Va
 						continue
 					}
 					env[x] = constant.MakeBool(constant.Compare(constant.ToInt(a), x.Op, constant.ToInt(bb)))
-				case token.AND, token.OR, token.ADD, token.SUB:
+				case token.AND, token.OR, token.ADD, token.SUB, token.MUL:
 					if a.Kind() == constant.Int && bb.Kind() == constant.Int {
 						env[x] = constant.BinaryOp(a, x.Op, bb)
+					}
+				case token.QUO:
+					if a.Kind() == constant.Int && bb.Kind() == constant.Int && constant.Sign(bb) != 0 {
+						env[x] = constant.BinaryOp(a, token.QUO_ASSIGN, bb)
+					}
+				case token.SHL, token.SHR:
+					if a.Kind() == constant.Int && bb.Kind() == constant.Int {
+						if sh, exact := constant.Uint64Val(bb); exact && sh < 63 {
+							env[x] = constant.Shift(a, x.Op, uint(sh))
+						}
 					}
 				}
 			case *ssa.UnOp:
@@ -1503,6 +1579,18 @@ func evalConstFunc(fn *ssa.Function, arg constant.Value, depth int) (constant.Va
 					if cl, ok := addr[x.X]; ok {
 						if v, ok := tableInit(cl.g, cl.idx, cl.field); ok {
 							env[x] = v
+						}
+					}
+					// a package-level array loaded as a value (`range table` copies it): remembered for Index
+					if g, ok := x.X.(*ssa.Global); ok {
+						if _, isArr := x.Type().Underlying().(*types.Array); isArr {
+							arrVal[x] = g
+						}
+					}
+					// the field of the receiver the evaluation is parameterised by (evalFieldFunc)
+					if evalBindField != "" {
+						if p := ir.PathOf(x.X); p.Root == ssa.Value(fn.Params[0]) && len(p.Fields) > 0 && p.Fields[len(p.Fields)-1] == evalBindField {
+							env[x] = arg
 						}
 					}
 				}
@@ -1537,6 +1625,16 @@ func evalConstFunc(fn *ssa.Function, arg constant.Value, depth int) (constant.Va
 			case *ssa.ChangeType:
 				if a, ok := val(x.X); ok {
 					env[x] = a
+				}
+			case *ssa.Index:
+				if g, ok := arrVal[x.X]; ok {
+					if iv, ok := val(x.Index); ok && iv.Kind() == constant.Int {
+						if n, exact := constant.Int64Val(iv); exact {
+							if v, ok := tableInit(g, n, -1); ok {
+								env[x] = v
+							}
+						}
+					}
 				}
 			case *ssa.IndexAddr:
 				if g, ok := x.X.(*ssa.Global); ok {
@@ -1818,4 +1916,116 @@ func tableInit(g *ssa.Global, idx int64, field int) (constant.Value, bool) {
 		}
 	}
 	return nil, false
+}
+
+// msglenFolds: the fixed-header length function folds for a sample value (then the folded form of the rule decided it).
+func msglenFolds(fn *ssa.Function) bool {
+	_, ok := evalFieldFunc(fn, "remlen", 128)
+	return ok
+}
+
+// constructorTable: fn indexes a package-level array (or map) of functions with its parameter; the functions the
+// package initialiser stores there, by index.
+func constructorTable(fn *ssa.Function) map[int64]*ssa.Function {
+	var g *ssa.Global
+	for _, b := range fn.Blocks {
+		for _, in := range b.Instrs {
+			switch x := in.(type) {
+			case *ssa.IndexAddr:
+				if gl, ok := x.X.(*ssa.Global); ok {
+					if at, ok := gl.Type().(*types.Pointer).Elem().Underlying().(*types.Array); ok {
+						if _, isF := at.Elem().Underlying().(*types.Signature); isF {
+							g = gl
+						}
+					}
+				}
+			case *ssa.Lookup:
+				if ld, ok := x.X.(*ssa.UnOp); ok {
+					if gl, ok := ld.X.(*ssa.Global); ok {
+						if mt, ok := gl.Type().(*types.Pointer).Elem().Underlying().(*types.Map); ok {
+							if _, isF := mt.Elem().Underlying().(*types.Signature); isF {
+								g = gl
+							}
+						}
+					}
+				}
+			}
+		}
+	}
+	if g == nil || g.Pkg == nil {
+		return nil
+	}
+	init := g.Pkg.Func("init")
+	if init == nil {
+		return nil
+	}
+	fnOf := func(v ssa.Value) *ssa.Function {
+		switch y := v.(type) {
+		case *ssa.Function:
+			return y
+		case *ssa.MakeClosure:
+			if f, ok := y.Fn.(*ssa.Function); ok {
+				return f
+			}
+		case *ssa.ChangeType:
+			if f, ok := y.X.(*ssa.Function); ok {
+				return f
+			}
+		}
+		return nil
+	}
+	out := map[int64]*ssa.Function{}
+	for _, b := range init.Blocks {
+		for _, in := range b.Instrs {
+			switch x := in.(type) {
+			case *ssa.Store:
+				ia, ok := x.Addr.(*ssa.IndexAddr)
+				if !ok || ia.X != ssa.Value(g) {
+					continue
+				}
+				k, ok := ia.Index.(*ssa.Const)
+				if !ok || k.Value == nil {
+					continue
+				}
+				if idx, exact := constant.Int64Val(constant.ToInt(k.Value)); exact {
+					if f := fnOf(x.Val); f != nil {
+						out[idx] = f
+					}
+				}
+			case *ssa.MapUpdate:
+				ld, ok := x.Map.(*ssa.UnOp)
+				if !ok || ld.X != ssa.Value(g) {
+					// the map may be built in a local first and stored into the global afterwards
+					if mk, isMk := x.Map.(*ssa.MakeMap); !isMk || !storedTo(mk, g) {
+						continue
+					}
+				}
+				k, ok := x.Key.(*ssa.Const)
+				if !ok || k.Value == nil {
+					continue
+				}
+				if idx, exact := constant.Int64Val(constant.ToInt(k.Value)); exact {
+					if f := fnOf(x.Value); f != nil {
+						out[idx] = f
+					}
+				}
+			}
+		}
+	}
+	if len(out) == 0 {
+		return nil
+	}
+	return out
+}
+
+func storedTo(v ssa.Value, g *ssa.Global) bool {
+	if v.Referrers() == nil {
+		return false
+	}
+	for _, r := range *v.Referrers() {
+		if st, ok := r.(*ssa.Store); ok && st.Val == v && st.Addr == ssa.Value(g) {
+			return true
+		}
+	}
+	return false
 }
